@@ -188,6 +188,15 @@ func (r *resolver) resolve(ctx context.Context, vk resolve.VersionKey, requireme
 		v.repositories = fetchRepos
 	}
 	todo := []version{v}
+	if _, ok := requirements[v.packageKey]; !ok {
+		// The root is the nearest declaration of its own package: its version
+		// is the first (soft) requirement on it.
+		requirements[v.packageKey] = []resolve.VersionKey{{
+			PackageKey:  vk.PackageKey,
+			VersionType: resolve.Requirement,
+			Version:     vk.Version,
+		}}
+	}
 
 	resolvedPackages := map[packageKey]bool{todo[0].packageKey: true}
 	concreteVersions := map[versionKey]resolve.NodeID{todo[0].versionKey: 0}
